@@ -60,6 +60,14 @@ class Capture(object):
                     if at.reverse: cols.append([w.attrs[i].index(at), ref(obj, at)])
                 if not wattrs: silent.append(h)
             queue.append([h, {'created': 'Created', 'modified': 'Modified', 'marked_to_delete': 'Deleted'}[st], cols])
+        # objects_to_save can hold the same object twice: _delete_ works with the status / save_pos it read before the nested calls, and a
+        # nested reverse.__set__(obj, None) (a one-to-one partner clearing its back reference) queues obj as 'modified' in between; the
+        # old slot is then not emptied.  flush saves the object at its FIRST slot (the later one is set to None by _save_).
+        seen, requeued, dedup = set(), [], []
+        for e in queue:
+            if e[0] in seen: requeued.append(e[0]); continue
+            seen.add(e[0]); dedup.append(e)
+        queue = dedup
         added, removed = [], []
         done = set()
         for at, objs in sorted(cache.modified_collections.items(), key=lambda p: (p[0].entity.__name__, p[0].name)):
@@ -75,7 +83,7 @@ class Capture(object):
                     for a, b2 in ((obj, o2), (o2, obj)):
                         if a._status_ in ('marked_to_delete', 'deleted', 'cancelled'): dead_refs.append([w.hid(b2), w.hid(a)])
                 for o2 in (sd.removed or ()): removed.append([w.hid(obj), w.hid(o2)])
-        return {'queue': queue, 'added': added, 'removed': removed, 'silent': silent, 'dead_refs': dead_refs}
+        return {'queue': queue, 'added': added, 'removed': removed, 'silent': silent, 'dead_refs': dead_refs, 'requeued': requeued}
 
     def db_rows(self):
         con = sqlite3.connect(self.path)
